@@ -184,6 +184,8 @@ def run(ctx, b, broken):
         return None if io.startswith("OK") else f"rejected: {io[:100]}"
     replay_known(ctx, oracle_known)
     n = 1500 if ctx.tier == "quick" else 20000
+    from pycparser import c_parser as _cp
+    veteran = _cp.CParser()          # parses every history as well: what a name is must not depend on what the parser saw before
     for _ in range(n):
         h = Hist(ctx.rng)
         text = h.program()
@@ -197,6 +199,13 @@ def run(ctx, b, broken):
             bad = check_probes(ast, h.probes)
         except Exception as ex:
             bad = f"valid history rejected: {type(ex).__name__}: {ex}"
+        if not bad:
+            try:
+                bad = check_probes(veteran.parse(text, "f.c"), h.probes)
+                if bad:
+                    bad = "on a CParser that parsed other programs before: " + bad
+            except Exception as ex:
+                bad = f"valid history rejected by a CParser that parsed other programs before: {type(ex).__name__}: {ex}"
         if bad:
             su.violation(text, bad)
         elif len(ctx.samples) < 4 and h.shadow and h.exits:
